@@ -219,7 +219,23 @@ def filter_case(case):
         before_head = head_of(repo)
         s_before = export(repo)
         cli = [a.replace('@AUX@', aux) for a in case['cli']]
-        rc, out, err, dt = run_tool(repo, ['--force'] + extra_cli + cli)
+        separate = case['mode'] != 'rules' and case['id'] % 6 == 3
+        if separate:
+            # rewrite into a second, empty repository; both given as relative paths from the common parent directory
+            tgt = os.path.join(root, 'tgt')
+            subprocess.run(['git', 'init', '-q', tgt], check=True, env=GIT_ENV, stdout=subprocess.DEVNULL)
+            git(tgt, 'config', 'user.name', 'T'); git(tgt, 'config', 'user.email', 't@e')
+            rc, out, err, dt = run_tool(root, ['--source', 'repo', '--target', 'tgt', '--force'] + extra_cli + cli)
+            count('separate-relative-target')
+            src_refs_before, src_head_before = before_refs, before_head
+            if rc == 0 and (refs(repo) != src_refs_before or head_of(repo) != src_head_before):
+                res['failures'].append(('C03', 'a run with a separate --target changed refs or HEAD of the source repository'))
+            if rc == 0 and os.path.exists(os.path.join(tgt, 'tgt')):
+                res['failures'].append(('C09', 'a stray directory tgt/tgt appeared in the target (files written relative to the wrong directory)'))
+            repo = tgt
+            before_refs, before_head = {}, None
+        else:
+            rc, out, err, dt = run_tool(repo, ['--force'] + extra_cli + cli)
         res['tool_rc'] = rc
         # guards of the claims, from the model
         opts = case['model_opts']
@@ -267,7 +283,11 @@ def filter_case(case):
                 res['failures'].append(('C14', 'git status is not clean after the run: ' + st.decode('utf-8', 'replace')[:200]))
             count('c14-head-attached')
         # C08: a neutral run preserves every object id
-        if case.get('neutral'):
+        if case.get('neutral') and separate:
+            if after_refs != src_refs_before:
+                diff = {k: (src_refs_before.get(k), after_refs.get(k)) for k in set(src_refs_before) | set(after_refs) if src_refs_before.get(k) != after_refs.get(k)}
+                res['failures'].append(('C08', f'a neutral run into a separate target did not reproduce the refs of the source: {list(diff.items())[:3]}'))
+        elif case.get('neutral'):
             if after_refs != before_refs or head_of(repo) != before_head:
                 diff = {k: (before_refs.get(k), after_refs.get(k)) for k in set(before_refs) | set(after_refs) if before_refs.get(k) != after_refs.get(k)}
                 res['failures'].append(('C08', f'a neutral run changed refs: {list(diff.items())[:3]}'))
@@ -292,7 +312,7 @@ def filter_case(case):
             count('c07-literals-claimed' if (bl or ml) else 'c07-no-compatible-literal')
             res['dist']['c07-literals'] = res['dist'].get('c07-literals', 0) + len(bl) + len(ml)
         # a second, neutral run in the same repository: the maps of the first run are lying around (C09), nothing may move (C08)
-        if case['mode'] != 'rules' and case['id'] % 2 == 0 and after_refs:
+        if case['mode'] != 'rules' and case['id'] % 2 == 0 and after_refs and not separate:
             nopts = 'inv=0;paths=-;globs=-;ren=-;tagren=none;brren=none;pe=never;pd=never;noff=0;marks=0'
             s_before2 = s_after
             refs2, head2 = after_refs, head_of(repo)
